@@ -139,6 +139,8 @@ impl Adapter for CbAd {
             "hm": rng.below(3),
             "sib": rng.below(2),
             "base": if rng.pct(40) { 1 + rng.below(3) } else { 0 },
+            // sc (some sequential runs with slow-call detection): the wrapped service takes sc ms inside Service::call
+            "sc": if seq && rng.pct(25) { 1 + rng.below(3) as u64 } else { 0 },
         })
     }
     fn build(&mut self, cfg: &Value, sim: &mut Sim) {
@@ -161,6 +163,7 @@ impl Adapter for CbAd {
                 b
             }};
         }
+        sim.w.lock().unwrap().call_delay = cfg["sc"].as_u64().unwrap_or(0);
         let classifier_first = cfg["ord"].as_u64().unwrap_or(0) == 1;
         let inner = Inner::new(&sim.w);
         let fb = u("fb") == 1;
